@@ -31,18 +31,20 @@ func main() { wk.Main("C05", run) }
 // ---- hook plumbing
 
 var (
-	hookMode      int32 // 0 off, 1 random yields, 2 random yields + directed holds
-	versions      int64 // version installations
-	flushCommits  int64 // memdb flush commits (from the DB log)
-	publishes     int64 // sequence publications
-	hookRand      uint64
-	windowsOpen   int64
-	winVersion    int64 // reader windows during which >= 1 version was installed
-	winFlush      int64 // reader windows during which >= 1 flush committed (buffer rotation + frozen drop)
-	winPublish    int64
-	heldReaders   int64
-	heldWriters   int64
-	winStart      sync.Map // goid-free: keyed by a per-goroutine token passed through TLS-less trick (see below)
+	hookMode        int32 // 0 off, 1 random yields, 2 random yields + directed holds
+	versions        int64 // version installations
+	flushCommits    int64 // memdb flush commits (from the DB log)
+	tableCommits    int64 // table compaction commits (from the DB log)
+	publishes       int64 // sequence publications
+	hookRand        uint64
+	windowsOpen     int64
+	winVersion      int64 // reader windows during which >= 1 version was installed
+	winFlush        int64 // reader windows during which >= 1 flush committed (buffer rotation + frozen drop)
+	winPublish      int64
+	heldReaders     int64
+	heldReadersLong int64
+	heldWriters     int64
+	winStart        sync.Map // goid-free: keyed by a per-goroutine token passed through TLS-less trick (see below)
 )
 
 func rnd() uint64 {
@@ -82,6 +84,14 @@ func yieldHook(p int) {
 			f0 := atomic.LoadInt64(&flushCommits)
 			atomic.AddInt64(&heldReaders, 1)
 			for i := 0; i < 200 && atomic.LoadInt64(&flushCommits) == f0; i++ {
+				time.Sleep(50 * time.Microsecond)
+			}
+		} else if x%16 == 5 {
+			// longer hold: until a table compaction has committed (entries below the oldest
+			// registered snapshot may be dropped by it)
+			t0 := atomic.LoadInt64(&tableCommits)
+			atomic.AddInt64(&heldReadersLong, 1)
+			for i := 0; i < 400 && atomic.LoadInt64(&tableCommits) == t0; i++ {
 				time.Sleep(50 * time.Microsecond)
 			}
 		}
@@ -133,6 +143,8 @@ func openDB(r *rand.Rand, os model.OptSet) (*leveldb.DB, *vstor.Stor, error) {
 	st.OnLog = func(l string) {
 		if strings.HasPrefix(l, "memdb@flush committed") {
 			atomic.AddInt64(&flushCommits, 1)
+		} else if strings.HasPrefix(l, "table@compaction committed") {
+			atomic.AddInt64(&tableCommits, 1)
 		}
 	}
 	db, err := leveldb.Open(st, os.Clone())
@@ -180,11 +192,11 @@ func cutsCase(c *wk.Ctx, i int) {
 	atomic.StoreInt32(&hookMode, mode)
 	defer atomic.StoreInt32(&hookMode, 0)
 	var (
-		failed  int32
-		wg      sync.WaitGroup
-		stop    int32
-		acked   = make([]int64, nw) // last acknowledged counter per writer
-		tagSeq  uint64
+		failed int32
+		wg     sync.WaitGroup
+		stop   int32
+		acked  = make([]int64, nw) // last acknowledged counter per writer
+		tagSeq uint64
 	)
 	fail := func(sig, msg string, w map[string]interface{}) {
 		if atomic.CompareAndSwapInt32(&failed, 0, 1) {
@@ -283,6 +295,20 @@ func cutsCase(c *wk.Ctx, i int) {
 					key := akey(w)
 					if useB {
 						key = bkey(w)
+					}
+					if rr.Intn(3) == 0 {
+						// Has of a key that exists once its first write was acknowledged
+						has, err := db.Has(key, nil)
+						if err != nil {
+							fail("unexpected-error", "Has: "+err.Error(), nil)
+							return
+						}
+						if floor >= 1 && !has {
+							fail("stale-read", fmt.Sprintf("Has(%s) = false although write %d to it had returned before Has was invoked (the key is never deleted)", key, floor), nil)
+							return
+						}
+						c.Count("has_calls_checked", 1)
+						break
 					}
 					v, err := db.Get(key, nil)
 					got := uint64(0)
@@ -419,6 +445,7 @@ func cutsCase(c *wk.Ctx, i int) {
 	c.Count("reader_calls_overlapping_a_flush_commit", atomic.SwapInt64(&winFlush, 0))
 	c.Count("reader_calls_overlapping_a_sequence_publication", atomic.SwapInt64(&winPublish, 0))
 	c.Count("readers_held_in_acquisition_window", atomic.SwapInt64(&heldReaders, 0))
+	c.Count("readers_held_until_a_table_compaction_committed", atomic.SwapInt64(&heldReadersLong, 0))
 	c.Count("writers_held_between_insert_and_publish_or_commit_and_drop", atomic.SwapInt64(&heldWriters, 0))
 	if atomic.LoadInt32(&failed) == 0 {
 		c.Nontrivial(fmt.Sprintf("case-%d", i))
